@@ -170,6 +170,48 @@ def run(prog, tier, res):
             else:
                 res.violate(R6, LARGEST, "flood:%s" % key_, "%s: found %s" % (what, json.dumps(fm.get(key_))[:700]), lb.where(), detail={"got": fm.get(key_), "want": fsp[key_]})
 
+    # ------------------------------------------------------------------ R7: the Hough accumulator's own bookkeeping
+    R7 = res.rule("C15.R7", "HoughSpaceAccumulator: add(point) pushes that point into every bin of get_bins(point); remove_unchecked(point) removes, from every bin of "
+                  "get_bins(point), the element equal to that point (position(|p| *p == point) + swap_remove of that position on the same vector)", 0)
+    HSA = R + "track_finding::HoughSpaceAccumulator::"
+    acc_notes = {}
+    for meth in ("add", "remove_unchecked"):
+        pth = HSA + meth
+        if pth not in prog.bodies:
+            acc_notes[meth] = "not found: clause not decided"
+            continue
+        mb = prog.body(pth)
+        man = analysis(prog, mb)
+        msy = Sym(prog, man, slice_param=99)
+        res.functions.add(pth)
+        if meth == "add":
+            pushes = [(bb, t) for bb, t in mb.calls() if short(cname(t)) == "Vec::<T, A>::push"]
+            if len(pushes) != 1:
+                acc_notes[meth] = "not one push: clause not decided for this form"
+                continue
+            bb, t = pushes[0]
+            man.terms._pos = (bb, "t")
+            recv, val = msy.name(man.terms.operand(t["args"][0])), msy.name(man.terms.operand(t["args"][1]))
+            if val == "arg2" and "get_bins(arg1,arg2)" in recv:
+                res.hit(R7)
+            else:
+                res.violate(R7, pth, "add", "add(point) pushes `%s` into `%s`; it must push the point itself into a bin of get_bins(point)" % (val[:120], recv[:160]), mb.where(bb))
+        else:
+            srs = [(bb, t) for bb, t in mb.calls() if short(cname(t)) == "Vec::<T, A>::swap_remove"]
+            if len(srs) != 1:
+                acc_notes[meth] = "not one swap_remove: clause not decided for this form"
+                continue
+            bb, t = srs[0]
+            man.terms._pos = (bb, "t")
+            vec, idx = msy.name(man.terms.operand(t["args"][0])), msy.name(man.terms.operand(t["args"][1]))
+            want_idx = "Option::<T>::unwrap(Iterator::position(mut(<impl [T]>::iter(%s)),|x| <alpha_g_physics::SpacePoint as std::cmp::PartialEq>::eq(x,arg2)))" % vec
+            if idx == want_idx and "get_bins(arg1,arg2)" in vec:
+                res.hit(R7)
+            else:
+                res.violate(R7, pth, "remove", "remove_unchecked(point) removes index `%s` of `%s`; it must remove the position of the element equal to the point in a bin of get_bins(point)" % (idx[:200], vec[:120]), mb.where(bb))
+    if acc_notes:
+        res.extra["hough_accumulator_bookkeeping"] = acc_notes
+
     # ------------------------------------------------------------------ R2
     sites = []
     for p, body in prog.bodies.items():
